@@ -249,6 +249,9 @@ pub fn build_depth(quick: bool, tiny_depth: u8) -> Fams {
     }
     big_inputs.push(Named { name: "fibhist(18,2)@ninebit".into(), data: fib_hist(18, 2, 200) });
     big_inputs.push(Named { name: "distfib(17)".into(), data: dist_fib(17) });
+    // more incompressible data than the largest pending buffer (128 KiB at memLevel 9) holds: single drains of >= 64 KiB
+    // (enumerated with the memLevel-9 configurations only)
+    big_inputs.push(Named { name: "lcg(200000)".into(), data: lcg_bytes(21, 200_000) });
     if !quick {
         big_inputs.push(Named { name: "distfib(19)".into(), data: dist_fib(19) });
     }
@@ -451,6 +454,9 @@ pub fn for_each<F: FnMut(&mut Ctx, &DItem)>(ctx: &mut Ctx, fams: &Fams, sel: Sel
             let n = inp.data.len();
             let w = 32768usize;
             for cfg in &fams.big_cfgs {
+                if inp.name == "lcg(200000)" && cfg.mem_level != 9 {
+                    continue;
+                }
                 let m = cfg.lit_bufsize();
                 let mut pos: Vec<usize> = vec![1, m - 1, m, w - 1, w, w + (w - 262), w + (w - 262) + 1, 2 * w - 262, 2 * w, 65535, 65536, n - 1];
                 pos.retain(|&x| x > 0 && x < n);
